@@ -99,7 +99,15 @@ DnsOut == [k \in DOMAIN In.dnsq |->
              [labels |-> In.dnsq[k].labels, qtype |-> In.dnsq[k].qtype, qclass |-> In.dnsq[k].qclass,
               bytes |-> EncQuestion(In.dnsq[k].labels, In.dnsq[k].qtype, In.dnsq[k].qclass)]]
 
-Export(av) == [layouts |-> Layouts, fixed |-> Fixed, nummax |-> NumMax,
+(* SACK blocks into limited option space (RFC 2018: at most 4 blocks; the encoder is handed whatever room the other options left):
+   the leading blocks that fit are encoded, nothing else is written.  Table: entry [n + 1][sp + 1] = bytes for n blocks, sp bytes of room. *)
+SackBlk(i) == <<i, 1, 2, 3, i, 5, 6, 7 + i>>
+SackMin(a, b) == IF a < b THEN a ELSE b
+SackFit(n, sp) == LET k == SackMin(SackMin(n, 4), IF sp < 10 THEN 0 ELSE (sp - 2) \div 8) IN
+                  IF k = 0 THEN <<>> ELSE EncOpt(<<"sack", [i \in 1..k |-> SackBlk(i)]>>)
+SackFitOut == [n1 \in 1..7 |-> [sp1 \in 1..46 |-> SackFit(n1 - 1, sp1 - 1)]]
+
+Export(av) == [layouts |-> Layouts, sackfit |-> SackFitOut, fixed |-> Fixed, nummax |-> NumMax,
                vectors |-> av,
                dnsq |-> DnsOut,
                inst_small |-> InstTable(InstSmall), inst_big |-> InstTable(InstBig),
